@@ -653,7 +653,7 @@ def run_verus(repo, prop, logdir):
         out_rs = os.path.join(logdir, "verus-" + name)
         open(out_rs, "w").write(text)
         t0 = time.time()
-        rc, out, wall, to, killed = run_cmd(["verus", out_rs, "--output-json", "--time", "--no-report-long-running"], logdir, dict(os.environ), 600)
+        rc, out, wall, to, killed = run_cmd(["verus", out_rs, "--output-json", "--time"], logdir, dict(os.environ), 600)
         open(os.path.join(logdir, "verus-" + name + ".log"), "w").write(out)
         r["wall_s"] = round(wall, 2)
         j = None
